@@ -75,8 +75,10 @@ def run_verus(name, text, extra_args=(), timeout=900, rlimit=None):
     d = os.path.join(BUILD, 'verus')
     os.makedirs(d, exist_ok=True)
     path = os.path.join(d, name + '.rs')
-    with open(path, 'w') as f:
+    tmp = path + f'.{os.getpid()}.tmp'
+    with open(tmp, 'w') as f:
         f.write(text)
+    os.replace(tmp, path)          # atomic: concurrent checks generate the same text for the same tree
     if res is not None:
         res['cached'] = True
         return res
